@@ -145,9 +145,11 @@ func (r *replication) replicate(c *conn, req *appendReq) error {
 		}
 
 		if r.nextIndex < r.ldrLastIndex && !r.log.Contains(r.nextIndex) {
-			if err := r.sendInstallSnapReq(c, req); err == nil {
-				continue
+			if err := r.sendInstallSnapReq(c, req); err != nil {
+				// the connection may carry an unanswered request: do not go on with it
+				return err
 			}
+			continue
 		}
 
 		// todo: before starting pipeline, check if sending snap
